@@ -11,7 +11,8 @@
 EXTENDS CJson, Json
 
 CONSTANTS MaxLen,      \* strings up to this length in every field
-          MaxLenDeep   \* ... and up to this length in the captured-output field
+          MaxLenDeep,  \* ... and up to this length in the captured-output field
+          MaxSiblings  \* sets of up to this many sibling member names (field "order")
 
 Fields == {"link.name", "link.command", "link.stdout", "link.stderr", "link.env_key", "link.env_val",
            "link.path", "link.byp_other", "layout.readme", "layout.step_name", "layout.command",
@@ -28,27 +29,52 @@ ASSUME ReferenceIsASpellingExceptControls ==
 ASSUME SerdeIsASpelling ==
   \A a \in StrsUpTo(3) : Spells(Serde(a), a)
 
+\* the two member orders differ exactly where a BMP character above the surrogates meets a supplementary one
+ASSUME OrdersDifferExactly ==
+  \A x, y \in NamesUpTo(2) :
+    (CodePointLess(x, y) # Utf16Less(x, y)) <=>
+      \E i \in 1..2 : /\ i <= Len(x) /\ i <= Len(y) /\ SubSeq(x, 1, i - 1) = SubSeq(y, 1, i - 1)
+                       /\ {x[i], y[i]} = {"H", "S"}
+ASSUME CodePointOrderIsTotal ==
+  \A x, y \in NamesUpTo(2) : x # y => (CodePointLess(x, y) # CodePointLess(y, x))
+
+\* sets of sibling names, given in descending order
+Names2 == NamesUpTo(2)
+Pairs == {p \in Names2 \X Names2 : CodePointLess(p[2], p[1])}
+Triples == IF MaxSiblings >= 3
+           THEN {p \in Names2 \X Names2 \X Names2 : CodePointLess(p[2], p[1]) /\ CodePointLess(p[3], p[2])}
+           ELSE {}
+SiblingSeqs == Pairs \cup Triples
+
 VARIABLES s, field, pc, ref, old
 mcvars == <<s, field, pc, ref, old>>
 
 MCInit ==
   /\ \/ s \in StrsUpTo(MaxLen) /\ field \in Fields
      \/ s \in StrsUpTo(MaxLenDeep) /\ field = "link.stdout"
+     \* sibling member names (environment variables, artifact paths, extra byproducts): s is the set, as a sequence
+     \/ s \in SiblingSeqs /\ field = "order"
   /\ pc = "start" /\ ref = << >> /\ old = << >>
 
 Encode ==
-  /\ pc = "start"
+  /\ pc = "start" /\ field # "order"
   /\ ref' = Olpc(s) /\ old' = CodeAsWas(s) /\ pc' = "done"
   /\ UNCHANGED <<s, field>>
 
-MCSpec == MCInit /\ [][Encode]_mcvars
+\* ref: the members in the order the signed bytes must have them; old: the UTF-16 order
+Order ==
+  /\ pc = "start" /\ field = "order"
+  /\ ref' = SortSeq(s, CodePointLess) /\ old' = SortSeq(s, Utf16Less) /\ pc' = "done"
+  /\ UNCHANGED <<s, field>>
+
+MCSpec == MCInit /\ [][Encode \/ Order]_mcvars
 
 RefOnlyEscapesTwo ==
-  pc = "done" => \A i \in 1..Len(ref) : ref[i] = BS => (i < Len(ref) /\ ref[i + 1] \in {BS, "\""}) \/ (i > 1 /\ ref[i - 1] = BS)
+  (pc = "done" /\ field # "order") => \A i \in 1..Len(ref) : ref[i] = BS => (i < Len(ref) /\ ref[i + 1] \in {BS, "\""}) \/ (i > 1 /\ ref[i - 1] = BS)
 
 Emit ==
   pc = "done" =>
     PrintT(<<"SCN", ToJson(
       [m |-> "C11", field |-> field, s |-> s, ref |-> ref, old |-> old,
-       dv |-> IF old # ref THEN <<"D_C11_SERDE_THEN_REPLACE">> ELSE << >>])>>)
+       dv |-> IF old = ref THEN << >> ELSE IF field = "order" THEN <<"D_UTF16_MEMBER_ORDER">> ELSE <<"D_C11_SERDE_THEN_REPLACE">>])>>)
 =============================================================================
